@@ -62,11 +62,11 @@ def _thread(src):
     body = m.group(0)
     marks = [
         ("set_current", "System :: set_current ( sys ) ;"),
-        ("handle", "HANDLE . with ( | cell | * cell . borrow_mut ( ) = Some ( hnd . clone ( ) ) ) ;"),
-        ("register", "send ( SystemCommand :: RegisterArbiter ( arb_id , hnd ) ) ;"),
+        ("handle", "HANDLE . with ("),
+        ("register", "send ( SystemCommand :: RegisterArbiter ("),
         ("ready", "ready_tx . send ( ( ) ) . unwrap ( ) ;"),
         ("run", "rt . block_on ( ArbiterRunner { rx } ) ;"),
-        ("deregister", "send ( SystemCommand :: DeregisterArbiter ( arb_id ) ) ;"),
+        ("deregister", "send ( SystemCommand :: DeregisterArbiter ("),
         ("wait_ready", "ready_rx . recv ( ) . unwrap ( ) ;"),
         ("return", "Arbiter { tx , thread_handle }"),
     ]
@@ -83,6 +83,12 @@ def _thread(src):
         ("rtReadyBeforeRun", pos["ready"] < pos["run"]),
         ("rtDeregisterAfterRun", pos["run"] < pos["deregister"]),
         ("rtNewWaitsForReady", pos["wait_ready"] < pos["return"] and pos["deregister"] < pos["wait_ready"]),
+        # the registry key is the arbiter's own process-wide number, on both sides
+        ("rtRegisterOwnId", _has(body, "let arb_id = COUNT . fetch_add ( 1 , Ordering :: Relaxed ) ;")
+            and _has(body, "send ( SystemCommand :: RegisterArbiter ( arb_id , hnd ) ) ;")),
+        ("rtDeregisterOwnId", _has(body, "send ( SystemCommand :: DeregisterArbiter ( arb_id ) ) ;")),
+        # the thread-local is overwritten with this arbiter's handle
+        ("rtArbThreadSetsHandle", _has(body, "HANDLE . with ( | cell | * cell . borrow_mut ( ) = Some ( hnd . clone ( ) ) ) ;")),
     ]
     lean = _lean(facts) + "\ndef rtThreadOrder : List String := [%s]" % ", ".join('"%s"' % n for n in order)
     return lean, body
@@ -114,7 +120,56 @@ def _runner(src):
     return _lean(facts), body + hb
 
 
+def _in_new_system(src):
+    """`Arbiter::in_new_system` + `Arbiter::current`: the system arbiter and the HANDLE thread-local"""
+    m = re.search(r"pub\(crate\) fn in_new_system\(\) -> ArbiterHandle \{.*?\n    \}\n", src, re.S)
+    if not m:
+        raise Fail("Arbiter::in_new_system not found")
+    body = m.group(0)
+    c = re.search(r"pub fn current\(\) -> ArbiterHandle \{.*?\n    \}\n", src, re.S)
+    if not c:
+        raise Fail("Arbiter::current not found")
+    cur = c.group(0)
+    set_pat = "HANDLE . with ( | cell | * cell . borrow_mut ( ) = Some ( hnd . clone ( ) ) ) ;"
+    spawn_pat = "crate :: spawn ( ArbiterRunner { rx } ) ;"
+    ms, mp = re.search(_ws(set_pat), body, re.S), re.search(_ws(spawn_pat), body, re.S)
+    facts = [
+        # overwritten unconditionally with the NEW system arbiter's handle, whatever the thread hosted before
+        ("rtInNewSystemSetsHandle", ms is not None and len(re.findall(r"HANDLE", body)) == 1
+            and _has(body, "let hnd = ArbiterHandle :: new ( tx ) ;")),
+        ("rtInNewSystemSpawnsRunner", mp is not None and ms is not None and ms.start() < mp.start()
+            and _has(body, "let ( tx , rx ) = mpsc :: unbounded_channel ( ) ;")),
+        ("rtCurrentReadsHandle", _has(cur, "HANDLE . with ( | cell | match * cell . borrow ( ) { Some ( ref hnd ) => hnd . clone ( ) ,")),
+    ]
+    return _lean(facts), body + cur
+
+
+def _construct(src):
+    """`System::with_tokio_rt` / `construct` / `set_current`: the CURRENT thread-local, the system arbiter's Register"""
+    w = re.search(r"pub fn with_tokio_rt<F>\(runtime_factory: F\) -> SystemRunner.*?\n    \}\n", src, re.S)
+    k = re.search(r"pub\(crate\) fn construct\(.*?\n    \}\n", src, re.S)
+    sc = re.search(r"pub fn set_current\(sys: System\) \{.*?\n    \}\n", src, re.S)
+    if not (w and k and sc):
+        raise Fail("System::with_tokio_rt / construct / set_current not found")
+    wb, kb, sb = w.group(0), k.group(0), sc.group(0)
+    order = [re.search(_ws(p), wb, re.S) for p in (
+        "let sys_arbiter = rt . block_on ( async { Arbiter :: in_new_system ( ) } ) ;",
+        "let system = System :: construct ( sys_tx , sys_arbiter . clone ( ) ) ;",
+        "send ( SystemCommand :: RegisterArbiter ( usize :: MAX , sys_arbiter ) )",
+        "rt . spawn ( sys_ctrl ) ;",
+        "SystemRunner { rt , stop_rx }")]
+    facts = [
+        ("rtSysArbRegisteredFirst", all(order) and all(order[i].start() < order[i + 1].start() for i in range(len(order) - 1))),
+        ("rtConstructSetsCurrent", _has(kb, "id : SYSTEM_COUNT . fetch_add ( 1 , Ordering :: SeqCst ) ,")
+            and _has(kb, "System :: set_current ( sys . clone ( ) ) ;")),
+        ("rtSetCurrentOverwrites", _has(sb, "CURRENT . with ( | cell | { * cell . borrow_mut ( ) = Some ( sys ) ; } )")),
+    ]
+    return _lean(facts), wb + kb + sb
+
+
 register("rt_controller_poll", span_custom(_SYS, _controller))
 register("rt_run", span_custom(_SYS, _run))
 register("rt_arbiter_thread", span_custom(_ARB, _thread))
 register("rt_runner_and_handle", span_custom(_ARB, _runner))
+register("rt_in_new_system", span_custom(_ARB, _in_new_system))
+register("rt_system_construct", span_custom(_SYS, _construct))
